@@ -2,6 +2,7 @@ package vrt
 
 import (
 	"fmt"
+	"math/rand"
 	"sort"
 	"time"
 )
@@ -18,6 +19,11 @@ var (
 	seqTicks  int64
 	SeqBudget int64 = 200000
 )
+
+// ResetRand puts the global math/rand source into a fixed state: repository
+// code that draws from it (cursor jitter, sampling) then behaves the same in
+// every execution and every replay.
+func ResetRand() { rand.Seed(1) } //nolint:staticcheck // the deprecated call is exactly what is needed here
 
 // ResetTicks is called by the sequential harness at each transport call.
 func ResetTicks() { seqTicks = 0 }
